@@ -15,8 +15,8 @@ WORK = K.WORK
 REPLAYS = os.path.join(VERIF, "replays")
 EVIDENCE = os.path.join(VERIF, "evidence")
 KNOWN = os.path.join(VERIF, "known_findings.json")
-REPLAYER_DIR = os.path.join(VERIF, "replayer")
-REPLAYER_TARGET = os.path.join(WORK, "replayer-target")
+# which native replayer crate serves which harness crate (one target directory each)
+REPLAYERS = {"avk": "replayer", "avk-serde": "replayer-serde", "avk-rayon": "replayer-rayon"}
 
 
 def log(*a):
@@ -45,18 +45,21 @@ def known_for(prop, role):
 _built = {}
 
 
-def build_replayer(profile):
+def build_replayer(profile, crate="avk"):
     """(Re)build the native replayer against /repo's current tree with the repo's toolchain."""
-    if profile in _built:
-        return _built[profile]
-    cmd = ["cargo", "build", "--offline", "--target-dir", REPLAYER_TARGET]
+    key = (profile, crate)
+    if key in _built:
+        return _built[key]
+    rdir = REPLAYERS.get(crate, "replayer")
+    target = os.path.join(WORK, rdir + "-target")
+    cmd = ["cargo", "build", "--offline", "--target-dir", target]
     if profile == "release":
         cmd.append("--release")
-    p = subprocess.run(cmd, cwd=REPLAYER_DIR, env=K.ENV, stdout=subprocess.PIPE, stderr=subprocess.STDOUT, text=True)
-    exe = os.path.join(REPLAYER_TARGET, profile if profile == "release" else "debug", "replayer")
+    p = subprocess.run(cmd, cwd=os.path.join(VERIF, rdir), env=K.ENV, stdout=subprocess.PIPE, stderr=subprocess.STDOUT, text=True)
+    exe = os.path.join(target, profile if profile == "release" else "debug", "replayer")
     ok = p.returncode == 0 and os.path.exists(exe)
-    _built[profile] = (exe if ok else None, p.stdout[-2000:])
-    return _built[profile]
+    _built[key] = (exe if ok else None, p.stdout[-2000:])
+    return _built[key]
 
 
 def panic_role(msg):
@@ -74,7 +77,7 @@ def native_replay(rec, allow_panic=()):
     with open(vals_path, "w") as f:
         json.dump(rec["values"], f)
     for prof in ("debug", "release"):
-        exe, buildlog = build_replayer(prof)
+        exe, buildlog = build_replayer(prof, rec.get("crate", "avk"))
         if exe is None:
             out["profiles"][prof] = {"error": "replayer build failed", "log": buildlog}
             continue
